@@ -11,13 +11,15 @@ VARIABLES l, cache     \* cache: set of class names that hold a compiled pattern
 vars == <<l, cache>>
 
 Pub(r) == <<r.valid, r.up, r.down, r.tgt>>
+\* the record is a plain SeqRecord without topology annotation (circular by default): no target extraction for that container
+Plain(e) == "plain" \in DOMAIN e /\ e.plain
 ValidateFails(e, ch) ==
   LET c == e.cls  w == e.seq  r == e.res
       t == Typing(c.toks, c.enz, c.role, w)
   IN Chk("C06:SameWrapperSameAnswer", r.again)        \* is_valid() asked again on the same wrapper, after the other queries
      \cup Chk("C06:SameAsFresh", Pub(r) = Pub(e.fresh) /\ r.exc = e.fresh.exc)
      \cup (IF e.circ /\ IsNucWord(w) /\ r.exc = ""
-           THEN Chk("C06:VerdictIndependent", r.valid = t.ok /\ (t.ok /\ r.valid => r.up = t.up /\ r.down = t.down /\ r.tgt = t.tgt))
+           THEN Chk("C06:VerdictIndependent", r.valid = t.ok /\ (t.ok /\ r.valid => r.up = t.up /\ r.down = t.down /\ (Plain(e) \/ r.tgt = t.tgt)))
            ELSE {})
      \* the slot of the asked class now holds its own structure; no other slot changed
      \* if the class object holds a compiled pattern of its own, it is the pattern of its own structure, and no
